@@ -338,6 +338,27 @@ impl Prop for C09 {
                     Some(LineCase::new(w, Expect::Value(date_val(want), 0.0), "day-word").with_lang(&l).with_now(now))
                 },
             ));
+            // the three words stay consecutive whatever zone is configured and whatever the time of
+            // day is (which calendar day 'today' is under a non-UTC zone is not prescribed: only the
+            // differences are compared)
+            let mut clocks2: Vec<i64> = Vec::new();
+            for (y, m, d) in [(2024, 2, 28), (2024, 2, 29), (2024, 12, 31), (2025, 1, 1), (2025, 6, 15), (2025, 10, 31)] {
+                for secs in [0, 1800, 9 * 3600, 12 * 3600, 15 * 3600, 23 * 3600 + 1800, 86399] {
+                    clocks2.push(cal::days_from_civil(y, m, d) * 86400 + secs);
+                }
+            }
+            f.push(Family::new(
+                "day-words-zones",
+                Mode::Full,
+                &format!("'yesterday to today', 'today to tomorrow' (1 day), 'yesterday to tomorrow', 'tomorrow to yesterday' (2 days) under default zones [UTC, GMT+14, GMT-12, CET, EST, GMT+5:30] set through set_timezone x {} clock instants (7 times of day incl. the first and last second, around a leap day, a year end and a month end): the three day words are consecutive calendar days in every configuration", clocks2.len()),
+                move |ch| {
+                    let tz = *ch.pick(&[None, Some("GMT+14"), Some("GMT-12"), Some("CET"), Some("EST"), Some("GMT+5:30")]);
+                    let now = *ch.pick(&clocks2);
+                    let (text, days) = *ch.pick(&[("yesterday to today", 1i64), ("today to tomorrow", 1), ("yesterday to tomorrow", 2), ("tomorrow to yesterday", 2)]);
+                    let cfg = crate::runner::Cfg { tz: tz.map(|s| s.to_string()), ..Default::default() };
+                    Some(LineCase::new(text.to_string(), Expect::Value(Val::Duration(days * 86400), 0.0), "day-word-zones").with_cfg(cfg).with_now(now))
+                },
+            ));
         }
         f
     }
